@@ -230,21 +230,21 @@ HIDDEN_STATE = {"strtok", "strerror", "rand", "srand", "setlocale", "localtime",
                 "getpwnam", "getpwuid", "gethostbyname", "readdir", "ttyname", "tmpnam", "drand48", "lrand48", "random", "srandom", "ecvt", "fcvt", "getenv", "setenv", "putenv"}
 
 
-def build_sched():
+def build_sched(variant="", defs=()):
     """C14: library compiled with -fsanitize=thread (compiler inserts __tsan_* calls), linked against
     sim/sched/rt.cpp instead of libtsan.  The library objects' writable sections are renamed so that
     the linker brackets them with __start_/__stop_ symbols (pristine snapshot / reset per run)."""
-    d = os.path.join(BUILD, "sched")
+    d = os.path.join(BUILD, "sched" + variant)
     if os.path.isdir(d):
         shutil.rmtree(d)
     tsan = ["-O1", "-g", "-gdwarf-4", "-fsanitize=thread", "-fno-builtin", "-fno-omit-frame-pointer"]
-    objs = compile_lib(d, "idn2", tsan, [])
+    objs = compile_lib(d, "idn2", tsan, list(defs))
     ext = undefined_externals(objs)
     for o in objs:
         run(["objcopy", "--rename-section", ".data=eavdata", "--rename-section", ".bss=eavbss",
              "--rename-section", ".data.rel=eavdata", "--rename-section", ".data.rel.local=eavdata", o])
     sim = os.path.join(VERIF, "sim")
-    inc = ["-I" + os.path.join(REPO, "include"), "-I" + REPO, "-DHAVE_LIBIDN2"]
+    inc = ["-I" + os.path.join(REPO, "include"), "-I" + REPO, "-DHAVE_LIBIDN2"] + list(defs)
     plain = ["-O1", "-g", "-gdwarf-4", "-fno-omit-frame-pointer", "-fPIC"]
     rt_o = os.path.join(d, "rt.o"); sm_o = os.path.join(d, "sched_sim.o")
     jobs = [[CXX, "-std=c++17", "-Wall"] + plain + ["-c", os.path.join(sim, "sched/rt.cpp"), "-o", rt_o],
